@@ -1102,44 +1102,62 @@ func ruleDrainLoopsConnect(r *Run, rule string) {
 		}
 		info := v.info
 		n := 0
-		ast.Inspect(v.run.Body, func(m ast.Node) bool {
-			fs, ok := m.(*ast.ForStmt)
-			if !ok || fs.Cond == nil {
-				return true
+		// every function of the variant (the loops may live in helpers of Run), in source order
+		var bodies []ast.Node
+		for _, f := range v.pkg.Syntax {
+			for _, d := range f.Decls {
+				if fd, ok := d.(*ast.FuncDecl); ok && fd.Body != nil {
+					bodies = append(bodies, fd.Body)
+				}
 			}
-			// buses whose non-emptiness keeps the loop running
-			var buses []*fieldRole
-			ast.Inspect(fs.Cond, func(k ast.Node) bool {
-				call, ok := k.(*ast.CallExpr)
-				if !ok {
+		}
+		sort.Slice(bodies, func(i, j int) bool {
+			pi, pj := w.Fset.Position(bodies[i].Pos()), w.Fset.Position(bodies[j].Pos())
+			if pi.Filename != pj.Filename {
+				return pi.Filename < pj.Filename
+			}
+			return pi.Offset < pj.Offset
+		})
+		for _, body := range bodies {
+			ast.Inspect(body, func(m ast.Node) bool {
+				fs, ok := m.(*ast.ForStmt)
+				if !ok || fs.Cond == nil {
 					return true
 				}
-				sel, ok := call.Fun.(*ast.SelectorExpr)
-				if !ok || sel.Sel.Name != "IsEmpty" || !isCompType(info.TypeOf(sel.X), "BufferedBus") {
-					return true
-				}
-				if f := v.busFieldOf(sel.X); f != nil {
-					buses = append(buses, f)
-				}
-				return true
-			})
-			for _, b := range buses {
-				n++
-				connects := false
-				ast.Inspect(fs.Body, func(k ast.Node) bool {
-					if call, ok := k.(*ast.CallExpr); ok {
-						if sel, ok := call.Fun.(*ast.SelectorExpr); ok && sel.Sel.Name == "Connect" {
-							if f := v.busFieldOf(sel.X); f != nil && f.obj == b.obj {
-								connects = true
-							}
-						}
+				// buses whose non-emptiness keeps the loop running
+				var buses []*fieldRole
+				ast.Inspect(fs.Cond, func(k ast.Node) bool {
+					call, ok := k.(*ast.CallExpr)
+					if !ok {
+						return true
+					}
+					sel, ok := call.Fun.(*ast.SelectorExpr)
+					if !ok || sel.Sel.Name != "IsEmpty" || !isCompType(info.TypeOf(sel.X), "BufferedBus") {
+						return true
+					}
+					if f := v.busFieldOf(sel.X); f != nil {
+						buses = append(buses, f)
 					}
 					return true
 				})
-				r.check(connects, rule, fmt.Sprintf("%s.(CPU).Run:drain(%s)#%d", v.rel, b.name, n), fs.Pos(), "the loop waits for the buffered bus %s to be empty and moves its buffered entries to the queue (Connect) in its body", b.name)
-			}
-			return true
-		})
+				for _, b := range buses {
+					n++
+					connects := false
+					ast.Inspect(fs.Body, func(k ast.Node) bool {
+						if call, ok := k.(*ast.CallExpr); ok {
+							if sel, ok := call.Fun.(*ast.SelectorExpr); ok && sel.Sel.Name == "Connect" {
+								if f := v.busFieldOf(sel.X); f != nil && f.obj == b.obj {
+									connects = true
+								}
+							}
+						}
+						return true
+					})
+					r.check(connects, rule, fmt.Sprintf("%s:drain(%s)#%d", v.rel, b.name, n), fs.Pos(), "the loop waits for the buffered bus %s to be empty and moves its buffered entries to the queue (Connect) in its body", b.name)
+				}
+				return true
+			})
+		}
 	}
 }
 
